@@ -322,6 +322,9 @@ int BDBPersister::operator()()
 unsigned MemoryPersister::get(const unsigned from, const unsigned to, Session& session,
 	bool (Session::*callback)(const Session::SequencePair& with, Session::RetransmissionContext& rctx)) const
 {
+	// read the next send number before looking at the store: a message sent in between is then either replayed
+	// or left to the next request, never covered by the closing gap fill
+	Session::RetransmissionContext rctx(from, to, session.get_next_send_seq());
 	unsigned last_seq(0), startSeqNum;
 	{
 		f8_scoped_spin_lock guard(_spl);
@@ -330,7 +333,6 @@ unsigned MemoryPersister::get(const unsigned from, const unsigned to, Session& s
 	}
 	unsigned recs_sent(0);
 	const unsigned finish(to == 0 ? last_seq : to);
-	Session::RetransmissionContext rctx(from, to, session.get_next_send_seq());
 
 	if (!startSeqNum || from > finish)
 	{
